@@ -40,6 +40,7 @@ inductive Op where
   | lastCas (c : String)
   | keys (c : String)
   | expState
+  | draw      -- another bucket of the process draws a timestamp from the shared clock
   deriving Repr, Inhabited
 
 /-- Everything the readback line shows for one key. -/
@@ -120,6 +121,7 @@ def step (s : State) : Op → State × Resp
   | .lastCas c => (s, .lastCas s.lastCas ((s.coll? c).map (·.lastCas) |>.getD 0) s.hlc)
   | .keys c => (s, .keys (((s.coll? c).map (·.docs.map (·.1)) |>.getD []).foldr insertSortedStr []))
   | .expState => (s, .next s.expNext)
+  | .draw => let nc := hlcNow s.hlc s.phys; ({ s with hlc := nc }, .out { cas := nc })
 
 /-- Run a list of operations, collecting the responses. -/
 def run (s : State) : List Op → State × List Resp
